@@ -268,6 +268,23 @@ CHECKS = {
             trace("random-scalar", "Trace_Contains", ["gen-contains"], 1500, 60000, shards=SH, gen_env={"WIREFILTER_USE_AVX2": "0"}, seed_off=5),
         ],
     ),
+    "C11": dict(
+        level="model_checking",
+        rule="(a) every regex AST of the subset up to two construction levels over {a, b, \", ], any, classes} in quoted and raw form "
+             "(in-model: the quoted scanner inverts the documented quoting) and (b) every wildcard pattern <= MaxLen over {a, A, *, ?, \\} "
+             "x strict/case-insensitive x star limit {unlimited,0,1,2}: expected parse verdict, AST JSON and the result on a pool of 28 "
+             "values (incl. LF, quotes, brackets, 0xff, upper case, absent) from the set-of-end-positions semantics. Random deeper "
+             "patterns incl. an invalid-regex catalogue, values over the pattern alphabet, per-element application, star limits 0..4 and "
+             "compiled-size-limit monotonicity are validated by Trace_Lang.",
+        exhaustive=True,
+        assumptions=["classes starting with an unescaped ] are not generated", "the compiled regex size is opaque (monotone facts only)"],
+        stages=[
+            mc("regex-level1", "MC_C11.tla", "MC_C11_regex1.cfg"),
+            mc("regex-level2", "MC_C11.tla", dict(quick=None, thorough="MC_C11_regex2.cfg")),
+            mc("wildcards", "MC_C11.tla", dict(quick="MC_C11_wild4.cfg", thorough="MC_C11_wild5.cfg")),
+            lang("patterns", "c11", 4000, 160000, ["--nctx", "8"], shards=SH),
+        ],
+    ),
     "C12": dict(
         level="model_checking",
         rule="uses()/uses_list() of every scheme field (and an unknown name, and a function name) on every random filter and value "
